@@ -134,7 +134,9 @@ impl Monitor for Mon {
         if !w.awaiting().is_empty() || !w.snapshot().timeouts.is_empty() {
             v.push(Event::Timer);
             for t in explore::time_reps(w, self.detail) {
-                v.push(Event::AdvanceTo(t));
+                if !w.just_advanced {
+                    v.push(Event::AdvanceTo(t));
+                }
             }
         }
         let menu = reply_menu(&w.cfg);
